@@ -256,6 +256,86 @@ fn main() {
                 k += 1;
             }
         }
+        Some("hookauth") => {
+            // hookauth <out>: C09 under EVERY configuration the contract accepts. A submitted, matured batch and
+            // a reward payment are offered by a range of senders after the admin tried to change protocol prefix
+            // and channel; recorded per attempt: whether an ibc-hooks intermediate account exists at all for the
+            // STORED (channel, staker / collector, prefix) - computed by the simulator's own transcription of the
+            // keeper - whether the sender is that account, and whether the contract accepted.
+            let mut out = std::io::BufWriter::new(std::fs::File::create(&args[2]).unwrap());
+            use std::io::Write;
+            let long = "a".repeat(84);
+            let prefixes: Vec<(&str, &str)> = vec![("ok", "osmo"), ("upper", "OSMO"), ("mixed", "Osmo"), ("mixed", "oSMO"), ("mixed", "osmO"),
+                ("other", "milk"), ("other", "init"), ("badchar", "os mo"), ("empty", ""), ("toolong", &long), ("digit", "osmo1"), ("same", "celestia")];
+            let mut null = Sink::new(Box::new(std::io::sink()));
+            let mut base = Run::new(Setup::default(), 1);
+            assert!(base.start(&mut null));
+            let t0 = base.w.now_s();
+            for st in [
+                json!({"m":"resume_contract","s":"admin","n":0,"l":0,"r":0}),
+                json!({"m":"faucet","a":"u1","d":"IBCTIA","x":1000}),
+                json!({"m":"liquid_stake","s":"u1","funds":[["IBCTIA",100]],"mint_to":"","to_native":"none","expected":-1}),
+                json!({"m":"ibc_ack","seq":1,"outcome":"ok"}),
+                json!({"m":"liquid_unstake","s":"u1","funds":[["LST",40]]}),
+                json!({"m":"time","t":t0+100}),
+                json!({"m":"submit_batch","s":"u2"}),
+                json!({"m":"time","t":t0+100000000}),
+            ] {
+                let o = base.apply(&mut null, &st);
+                if !o.ok {
+                    eprintln!("hookauth: preamble step {} failed: {}", st["m"], o.err);
+                    std::process::exit(2);
+                }
+            }
+            let hook_opt = |ch: &str, from: &str, prefix: &str| -> Option<String> {
+                use bech32::ToBase32;
+                use sha2::{Digest, Sha256};
+                let th = Sha256::digest(b"ibc-wasm-hook-intermediary");
+                let mut h = Sha256::new();
+                h.update(th);
+                h.update(ch.as_bytes());
+                h.update(b"/");
+                h.update(from.as_bytes());
+                bech32::encode(prefix, h.finalize().to_vec().to_base32(), bech32::Variant::Bech32).ok()
+            };
+            for (pclass, pfx) in &prefixes {
+                for ch in ["channel-1", "channel-7", "channel-17"] {
+                    let mut r = base.clone();
+                    let up = r.apply(&mut null, &json!({"m":"update_config","s":"admin","up":{"proto":{"prefix":pfx,"channel":ch,"oracle":""}}}));
+                    let cfg = proj::cfg_of(&r.w);
+                    let sp = cfg.pointer("/protocol_chain_config/account_address_prefix").and_then(|x| x.as_str()).unwrap_or("").to_string();
+                    let sc = cfg.pointer("/protocol_chain_config/ibc_channel_id").and_then(|x| x.as_str()).unwrap_or("").to_string();
+                    let staker = cfg.pointer("/native_chain_config/staker_address").and_then(|x| x.as_str()).unwrap_or("").to_string();
+                    let coll = cfg.pointer("/native_chain_config/reward_collector_address").and_then(|x| x.as_str()).unwrap_or("").to_string();
+                    for (handler, origin) in [("receive_unstaked_tokens", &staker), ("receive_rewards", &coll)] {
+                        let other = if handler == "receive_rewards" { &staker } else { &coll };
+                        let expected = hook_opt(&sc, origin, &sp);
+                        let mut cands: Vec<(String, String)> = vec![];
+                        if let Some(e) = &expected {
+                            cands.push(("expected".into(), e.clone()));
+                        }
+                        cands.push(("under-osmo".into(), store::hook_account(&sc, origin, "osmo")));
+                        cands.push(("under-lowercased".into(), hook_opt(&sc, origin, &sp.to_lowercase()).unwrap_or_else(|| store::mk_addr("osmo", "zz", 20))));
+                        cands.push(("other-channel".into(), store::hook_account("channel-2", origin, "osmo")));
+                        cands.push(("old-channel".into(), store::hook_account("channel-1", origin, "osmo")));
+                        cands.push(("other-origin".into(), store::hook_account(&sc, other, "osmo")));
+                        cands.push(("origin-itself".into(), origin.to_string()));
+                        cands.push(("admin".into(), r.w.names.ad("admin")));
+                        cands.push(("user".into(), r.w.names.ad("u2")));
+                        for (label, sender) in cands {
+                            let mut w = r.w.clone();
+                            w.credit(&sender, sim::IBC_DENOM, 24);
+                            let msg = if handler == "receive_rewards" { json!({"receive_rewards": {}}) } else { json!({"receive_unstaked_tokens": {"batch_id": 1}}) };
+                            let o = w.tx_execute(&sender, &msg, &[(sim::IBC_DENOM.to_string(), 24)], &sim::TxEnv::default());
+                            writeln!(out, "{}", json!({"kind": "auth", "handler": handler, "pclass": pclass, "asked_prefix": pfx, "asked_channel": ch,
+                                "update_ok": up.ok, "prefix": sp, "channel": sc, "expected_exists": expected.is_some(),
+                                "cand": label, "is_expected": Some(&sender) == expected.as_ref(), "accepted": o.ok, "panic": o.panic,
+                                "err": o.err.chars().take(120).collect::<String>()})).unwrap();
+                        }
+                    }
+                }
+            }
+        }
         Some("tree") => {
             // tree <tlc-output-with-EDGE-lines> <out.ndjson> <sample_mod> <seed>
             let f = std::fs::File::create(&args[3]).unwrap();
